@@ -767,10 +767,17 @@ func c20Check(c *Ctx, bt *Batch, tc *c20Case, agreed *bool) {
 				p := strings.SplitN(e, ":", 2)
 				day, _ := strconv.Atoi(p[0])
 				s := "undefined"
-				if strings.HasSuffix(p[1], "!") {
-					// the period has a day on which V0 + inflow vanishes (exactly or up to 1e-6 of its operands): the exact
-					// return is undefined or rests on the last truncated digits, the float64 division prints anything
-					p[1] = strings.TrimSuffix(p[1], "!")
+				if strings.HasSuffix(p[1], "!") || strings.HasSuffix(p[1], "~") {
+					// "!": the period has a day on which V0 + inflow vanishes (exactly or up to 1e-6 of its operands): the exact
+					// return is undefined or rests on the last truncated digits, the float64 division prints anything.
+					// "~": … a day on which V0 + inflow is a truncation residue, ten orders of magnitude below the values and
+					// posting values it is computed from: the rounding errors of the float64 sums show in the printed digit
+					knownKey, knownWhat := "returns-meaningless-when-start-value-plus-inflow-vanishes", "a day of the period has V0 + inflow = 0 up to 1e-6 of its operands"
+					if strings.HasSuffix(p[1], "~") {
+						knownKey, knownWhat = "returns-meaningless-when-start-value-is-rounding-residue", "a day of the period has a denominator V0 + inflow that is 1e-10 of the values and posting values it is computed from"
+						c.Tag("residue-conditioned-return")
+					}
+					p[1] = strings.TrimSuffix(strings.TrimSuffix(p[1], "!"), "~")
 					illCond[day] = true
 					if k < len(lines) && lines[k].Day == day {
 						exactText := "undefined"
@@ -781,8 +788,8 @@ func c20Check(c *Ctx, bt *Batch, tc *c20Case, agreed *bool) {
 						c.Tag("ill-conditioned-return")
 						if lines[k].Text != exactText && !(p[1] == "undef" && lines[k].Undef) {
 							c.MonitorKnown(tc.Stream, tc.Idx, "return of a period with a vanishing denominator", in,
-								fmt.Sprintf("%s: printed %s%%, exact value %s (a day of the period has V0 + inflow = 0 up to 1e-6 of its operands)\n%s", fmtDate(day), lines[k].Text, exactText, tc.RetOut),
-								"returns-meaningless-when-start-value-plus-inflow-vanishes")
+								fmt.Sprintf("%s: printed %s%%, exact value %s (%s)\n%s", fmtDate(day), lines[k].Text, exactText, knownWhat, tc.RetOut),
+								knownKey)
 						}
 						mb = append(mb, fmt.Sprintf("%s:%s", fmtDate(day), lines[k].Text))
 						continue
